@@ -793,7 +793,7 @@ def run(ck) -> None:
                 failures.append((case, [f"result differs under PYTHONHASHSEED={hs} / another allocation order: "
                                         f"{obs['after']} vs {o2['after']}"]))
                 break
-    # ---- known findings (none recorded for C12 today), then violations
+    # ---- known findings still open (none today; the fixed one is a corpus case), then violations
     for k in ck._known:
         if k.get("status") != "known":
             continue
